@@ -165,7 +165,10 @@ func rulePrepareResponse(r *Run) {
 	r.AtLeast(rule, "returns of the upstream response in prepareResponse", n, 1)
 }
 
-// ruleRespondOnce: every path through queryHandler writes the response exactly once.
+// ruleRespondOnce: every path through queryHandler writes the response exactly once. A call of
+// a helper that itself writes exactly once on each of its paths counts as one write
+// (`rejectRequest(w, err)` for `emitError(w, 422, err)`); a callee from which a response write
+// can be reached but whose number of writes the rule cannot pin down is a violation.
 func ruleRespondOnce(r *Run) {
 	const rule = "R5.once"
 	name := "pebbles.(*Gateway).queryHandler"
@@ -173,31 +176,136 @@ func ruleRespondOnce(r *Run) {
 	if fn == nil {
 		return
 	}
-	isWrite := func(i ssa.Instruction) int {
-		ci, ok := i.(ssa.CallInstruction)
-		if !ok {
-			return 0
-		}
-		switch calleeName(ci.Common()) {
+	isPrimitive := func(c *ssa.CallCommon) bool {
+		switch calleeName(c) {
 		case modPath + ".emitError", "(" + modPath + ".Results).Emit":
-			return 1
+			return true
 		}
-		return 0
+		return false
 	}
-	mn, mx, cyc, ends := pathCount(fn.Blocks[0], 0, nil, isWrite)
-	if cyc || mn != 1 || mx != 1 {
+	// functions from which a primitive response write is reachable
+	reaches := map[*ssa.Function]bool{}
+	reachesWrite := func(f *ssa.Function) bool {
+		if v, ok := reaches[f]; ok {
+			return v
+		}
+		res := false
+		for g := range r.P.CG.Reachable([]*ssa.Function{f}, nil) {
+			for _, ins := range allInstrs(g) {
+				if ci, ok := ins.(ssa.CallInstruction); ok && isPrimitive(ci.Common()) {
+					res = true
+				}
+			}
+		}
+		reaches[f] = res
+		return res
+	}
+	var unclear []string
+	var weightIn func(caller *ssa.Function, depth int) func(ssa.Instruction) int
+	// exact number of writes of a helper, or -1
+	var exact func(f *ssa.Function, depth int) int
+	exact = func(f *ssa.Function, depth int) int {
+		if depth > 4 || f.Blocks == nil {
+			return -1
+		}
+		mn, mx, cyc, _ := pathCount(f.Blocks[0], 0, nil, weightIn(f, depth+1))
+		if cyc || mn != mx {
+			return -1
+		}
+		return mn
+	}
+	weightIn = func(caller *ssa.Function, depth int) func(ssa.Instruction) int {
+		return func(i ssa.Instruction) int {
+			ci, ok := i.(ssa.CallInstruction)
+			if !ok {
+				return 0
+			}
+			if isPrimitive(ci.Common()) {
+				if _, isCall := i.(*ssa.Call); !isCall && depth > 0 {
+					unclear = append(unclear, "deferred/spawned write in "+fnName(caller))
+				}
+				return 1
+			}
+			total := 0
+			for _, e := range r.P.CG.Out[caller] {
+				if e.Site != ci || e.Kind == "param" || !reachesWrite(e.Callee) {
+					continue
+				}
+				n := -1
+				if _, isCall := i.(*ssa.Call); isCall && e.Kind == "static" {
+					n = exact(e.Callee, depth)
+				}
+				if n < 0 {
+					unclear = append(unclear, fnName(e.Callee)+" (called at "+r.P.pos(i.Pos())+")")
+					n = 1
+				}
+				total += n
+			}
+			return total
+		}
+	}
+	mn, mx, cyc, ends := pathCount(fn.Blocks[0], 0, nil, weightIn(fn, 0))
+	if len(unclear) > 0 {
+		sort.Strings(unclear)
+		r.Bad(rule, name, "responses per request", r.P.pos(fn.Pos()), "a response write is reachable through "+unclear[0]+", and the rule cannot tell how many times it writes (not a plain helper that writes exactly once on each of its paths): exactly one of emitError/Emit is required on every path of the handler")
+	} else if cyc || mn != 1 || mx != 1 {
 		r.Bad(rule, name, "responses per request", r.P.pos(fn.Pos()), fmt.Sprintf("a path through the handler writes the response %d..%d times (cyclic=%v); exactly one of emitError/Emit is required on every path", mn, mx, cyc))
 	} else {
-		r.OK(rule, name, "responses per request", r.P.pos(fn.Pos()), fmt.Sprintf("each of the %d exit paths calls exactly one of emitError / Results.Emit", ends))
+		r.OK(rule, name, "responses per request", r.P.pos(fn.Pos()), fmt.Sprintf("each of the %d exit paths calls exactly one of emitError / Results.Emit (directly or through a helper that writes exactly once)", ends))
 	}
-	// status codes: 422 only from the Parse-failure branch, via emitError
-	for _, ins := range allInstrs(fn) {
-		ci, ok := ins.(ssa.CallInstruction)
-		if !ok || calleeName(ci.Common()) != modPath+".emitError" {
-			continue
+	// status codes: 422 only from the Parse-failure branch, via emitError. The emitError calls
+	// are looked for in the handler and in the helpers it calls directly (status handed on as a
+	// constant or as the helper's parameter); where such a call sits is judged at the call site
+	// inside the handler.
+	type emitSite struct {
+		at   ssa.Instruction // the call inside queryHandler
+		call ssa.CallInstruction
+		code ssa.Value
+	}
+	var emits []emitSite
+	var collect func(f *ssa.Function, at ssa.Instruction, bind map[*ssa.Parameter]ssa.Value, depth int)
+	collect = func(f *ssa.Function, at ssa.Instruction, bind map[*ssa.Parameter]ssa.Value, depth int) {
+		for _, ins := range allInstrs(f) {
+			ci, ok := ins.(ssa.CallInstruction)
+			if !ok {
+				continue
+			}
+			here := at
+			if f == fn {
+				here = ins
+			}
+			if calleeName(ci.Common()) == modPath+".emitError" && len(ci.Common().Args) >= 2 {
+				code := ci.Common().Args[1]
+				if p, isP := code.(*ssa.Parameter); isP && bind[p] != nil {
+					code = bind[p]
+				}
+				emits = append(emits, emitSite{here, ci, code})
+				continue
+			}
+			if depth >= 3 {
+				continue
+			}
+			for _, e := range r.P.CG.Out[f] {
+				if e.Site != ci || e.Kind != "static" || e.Callee == f || !reachesWrite(e.Callee) || isPrimitive(ci.Common()) {
+					continue
+				}
+				b2 := map[*ssa.Parameter]ssa.Value{}
+				for k, a := range ci.Common().Args {
+					if k < len(e.Callee.Params) {
+						if p, isP := a.(*ssa.Parameter); isP && bind[p] != nil {
+							a = bind[p]
+						}
+						b2[e.Callee.Params[k]] = a
+					}
+				}
+				collect(e.Callee, here, b2, depth+1)
+			}
 		}
-		args := ci.Common().Args
-		code, isC := args[1].(*ssa.Const)
+	}
+	collect(fn, nil, nil, 0)
+	for _, es := range emits {
+		ins := es.at
+		code, isC := es.code.(*ssa.Const)
 		good := isC && code.Value != nil && code.Value.ExactString() == "422"
 		// must be on the failure side of requests.Parse
 		onFail := false
@@ -217,9 +325,9 @@ func ruleRespondOnce(r *Run) {
 			}
 		}
 		if good && onFail {
-			r.OK(rule, name, "emitError(422)", r.P.pos(ins.Pos()), "status 422 is produced only on the failure side of requests.Parse")
+			r.OK(rule, name, "emitError(422)", r.P.pos(es.call.Pos()), "status 422 is produced only on the failure side of requests.Parse")
 		} else {
-			r.Bad(rule, name, "emitError(422)", r.P.pos(ins.Pos()), "emitError is not (only) the 422 answer to an undecodable request")
+			r.Bad(rule, name, "emitError(422)", r.P.pos(es.call.Pos()), "emitError is not (only) the 422 answer to an undecodable request")
 		}
 	}
 }
@@ -697,6 +805,16 @@ var fanoutOwnerWrites = map[string]tabEntry{
 		"lazy default `if q.client == nil { q.client = &http.Client{} }`: two chunks of one Query can both see nil and both store an equivalent empty client — a benign data race (every stored value behaves the same and the default factory always sets a client), recorded rather than silenced"},
 }
 
+// ownerFieldOfLoad: v is the value of a field (`x.f` loaded), possibly re-typed; the field's address.
+func ownerFieldOfLoad(v ssa.Value) *ssa.FieldAddr {
+	ld, ok := unwrap(v).(*ssa.UnOp)
+	if !ok || ld.Op != token.MUL {
+		return nil
+	}
+	fa, _ := ld.X.(*ssa.FieldAddr)
+	return fa
+}
+
 // ruleFanoutOwner (R3i): the workers of a fan-out do not write the object whose method started
 // the fan-out. For every AsyncMapReduce call inside a method, the functions reachable from its
 // map function neither store to a field of the method's receiver type nor hand the address of
@@ -732,8 +850,19 @@ func ruleFanoutOwner(r *Run) {
 					if f, ok := x.Addr.(*ssa.FieldAddr); ok {
 						fa, what = f, "store"
 					}
+				case *ssa.MapUpdate:
+					// a map held in a field of the owner: concurrent map writes are fatal, and
+					// what a sibling reads from it depends on timing
+					if f := ownerFieldOfLoad(x.Map); f != nil {
+						fa, what = f, "map update"
+					}
 				case ssa.CallInstruction:
 					c := x.Common()
+					if b, isB := c.Value.(*ssa.Builtin); isB && (b.Name() == "delete" || b.Name() == "clear") && len(c.Args) > 0 {
+						if f := ownerFieldOfLoad(c.Args[0]); f != nil {
+							fa, what = f, "map "+b.Name()
+						}
+					}
 					if strings.HasPrefix(calleeName(c), "sync/atomic.") && len(c.Args) > 0 {
 						if f, ok := c.Args[0].(*ssa.FieldAddr); ok {
 							fa, what = f, calleeName(c)
@@ -761,7 +890,7 @@ func ruleFanoutOwner(r *Run) {
 			}
 		}
 		if bad == 0 {
-			r.OK(rule, fnName(fn), "workers leave "+shortStruct(owner)+" alone", r.P.pos(call.Pos()), fmt.Sprintf("none of the %d functions reachable from the map function stores to a field of the owner or passes one to sync/atomic", len(fs)))
+			r.OK(rule, fnName(fn), "workers leave "+shortStruct(owner)+" alone", r.P.pos(call.Pos()), fmt.Sprintf("none of the %d functions reachable from the map function stores to a field of the owner, updates a map held in one or passes one to sync/atomic", len(fs)))
 		}
 	}
 	r.AtLeast(rule, "fan-outs started by methods", n, 3)
